@@ -97,6 +97,31 @@ Proof.
   - unfold scan_fuel. lia.
 Qed.
 
+(* the scan moves forward: every frame starts at or behind the offset the scan
+   was started at, and at least 8 bytes behind the previous frame *)
+Fixpoint scan_sorted (off : N) (evs : list frame_ev) : Prop :=
+  match evs with
+  | [] => True
+  | e :: r => off <= fe_off e /\ scan_sorted (fe_off e + 8) r
+  end.
+
+Lemma scan_sorted_weaken evs off off' : off' <= off -> scan_sorted off evs -> scan_sorted off' evs.
+Proof. destruct evs as [|e r]; [auto|]. cbn [scan_sorted]. intros H [H1 H2]. split; [lia|exact H2]. Qed.
+
+Lemma scan_from_sorted fuel : forall f off, scan_sorted off (scan_from fuel f off).
+Proof.
+  induction fuel as [|k IH]; intros f off; [exact I|]. cbn [scan_from].
+  destruct (read_frame_header (read_at f off 8)) as [typ v| | |]; try exact I.
+  cbn [scan_sorted fe_off]. split; [lia|].
+  eapply scan_sorted_weaken; [|apply IH]. pose proof (enc_frame_size_ge (fh_len typ v)). lia.
+Qed.
+
+Lemma scan_sorted_ge evs : forall off, scan_sorted off evs -> Forall (fun e => off <= fe_off e) evs.
+Proof.
+  induction evs as [|e r IH]; intros off H; [constructor|]. cbn [scan_sorted] in H. destruct H as [H1 H2].
+  constructor; [exact H1|]. eapply Forall_impl; [|apply (IH _ H2)]. intros x Hx. cbn beta in Hx. lia.
+Qed.
+
 (* ---------------- frame shapes ---------------- *)
 (* a frame as the scanner sees it: an intact 8-byte header followed by a body
    of the right length whose content does not matter *)
